@@ -499,6 +499,57 @@ impl Fam for WithNewtypes {
 	}
 }
 
+#[derive(Serialize, Deserialize, Debug, Clone)]
+pub struct Tuples {
+	a: (i32, i32),
+	b: i32,
+	c: [i64; 3],
+	d: String,
+	e: Vec<(String, bool)>,
+	f: Pair,
+	g: i64,
+}
+#[derive(Serialize, Deserialize, Debug, Clone)]
+pub struct Pair(i32, i32);
+impl Fam for Tuples {
+	const NAME: &'static str = "fixed-size sequences (tuples, [T; N], tuple structs) over Avro arrays, followed by other fields";
+	fn schema() -> S {
+		S::record(
+			"Tuples",
+			vec![
+				("a", S::array(S::Int)),
+				("b", S::Int),
+				("c", S::array(S::Long)),
+				("d", S::String),
+				("e", S::array(S::array(S::Union(vec![S::String, S::Boolean])))),
+				("f", S::array(S::Int)),
+				("g", S::Long),
+			],
+		)
+	}
+	fn values() -> Vec<Self> {
+		let mut out = Vec::new();
+		for &x in &I32S {
+			for e in [vec![], vec![("k".to_owned(), true)], vec![("".to_owned(), false), ("é".to_owned(), true)]] {
+				out.push(Tuples { a: (x, -1), b: 7, c: [x as i64, i64::MIN, 0], d: "after".into(), e, f: Pair(x, 64), g: -65 });
+			}
+		}
+		out
+	}
+	fn to_r(&self) -> R {
+		let ints = |v: &[i32]| R::Array(v.iter().map(|x| R::Int(*x)).collect());
+		R::Record(vec![
+			ints(&[self.a.0, self.a.1]),
+			R::Int(self.b),
+			R::Array(self.c.iter().map(|x| R::Long(*x)).collect()),
+			rstr(&self.d),
+			R::Array(self.e.iter().map(|(s, b)| R::Array(vec![R::Union(0, Box::new(rstr(s))), R::Union(1, Box::new(R::Bool(*b)))])).collect()),
+			ints(&[self.f.0, self.f.1]),
+			R::Long(self.g),
+		])
+	}
+}
+
 #[derive(Serialize, Deserialize, Debug, Clone, PartialEq)]
 pub struct Borrowed<'a> {
 	s: &'a str,
@@ -656,8 +707,9 @@ pub fn run_all(cover: &mut Cover, out: &mut Vec<Violation>) {
 	run_family::<Tree>(cover, out, None);
 	run_family::<Logicals>(cover, out, None);
 	run_family::<WithNewtypes>(cover, out, None);
+	run_family::<Tuples>(cover, out, None);
 	run_borrowed(cover, out);
-	cover.count("typed_families", 13);
+	cover.count("typed_families", 14);
 }
 
 pub fn replay(family: &str, idx: usize) -> Vec<Violation> {
@@ -671,7 +723,7 @@ pub fn replay(family: &str, idx: usize) -> Vec<Violation> {
 			}
 		)*};
 	}
-	try_fam!(Prim, Floats, Widths, Opts, UnionNewtype, UnionStructVariant, WithEnum, Colls, List, Tree, Logicals, WithNewtypes);
+	try_fam!(Prim, Floats, Widths, Opts, UnionNewtype, UnionStructVariant, WithEnum, Colls, List, Tree, Logicals, WithNewtypes, Tuples);
 	run_borrowed(&mut cover, &mut out);
 	out
 }
